@@ -17,6 +17,28 @@ def r1_selection(cx):
     b = params(fn)[1]
     loops = [s for s in fn.body if isinstance(s, ast.For)]
     if not loops:
+        # first-match written with next(): latest = next((c for c in reversed(deps) if c in broker), SENTINEL); if latest is SENTINEL: raise SkipComponent(); return broker[latest]
+        nx = [x for x in find_calls(fn.body, name="next") if len(x.args) == 2 and isinstance(x.args[0], ast.GeneratorExp) and len(x.args[0].generators) == 1]
+        if len(nx) == 1 and isinstance(stmt_of(nx[0]), ast.Assign) and isinstance(stmt_of(nx[0]).targets[0], ast.Name) and stmt_of(nx[0]).value is nx[0]:
+            ge, g0 = nx[0].args[0], nx[0].args[0].generators[0]
+            res, sent = stmt_of(nx[0]).targets[0].id, U(nx[0].args[1])
+            it = g0.iter
+            base = it.args[0] if isinstance(it, ast.Call) and call_name(it) == "reversed" and it.args else None
+            bt = U(trace(base, fn)) if base is not None else ""
+            cx.require(base is not None and bt in ("dr.get_delegate(self).deps", "get_delegate(self).deps", "dr.DELEGATES[self].deps"), nx[0],
+                       "implementations are scanned in reverse registration order over the ordered deps list (latest first)", construct=short(nx[0], 100))
+            tv = U(g0.target)
+            cx.require(U(ge.elt) == tv and [U(i) for i in g0.ifs] == ["%s in %s" % (tv, b)], nx[0], "the first implementation present in the broker is returned as is (guard: only 'c in broker')",
+                       construct=short(ge, 90))
+            rets = [r for r in walk_body(fn.body) if isinstance(r, ast.Return)]
+            rs = [r for r in walk_body(fn.body) if isinstance(r, ast.Raise)]
+            fresh = m.top.get(sent) is not None and U(m.top.get(sent)) == "object()"
+            ok = len(rets) == 1 and U(rets[0].value) == "%s[%s]" % (b, res) and len(rs) == 1 and "SkipComponent" in U(rs[0]) and fresh \
+                and (("%s is %s" % (res, sent), True) in guard_texts(rs[0]) or ("%s is not %s" % (res, sent), False) in guard_texts(rs[0])) \
+                and (("%s is %s" % (res, sent), False) in guard_texts(rets[0]) or ("%s is not %s" % (res, sent), True) in guard_texts(rets[0]))
+            cx.require(ok, rs[0] if rs else fn, "when no implementation produced a value the spec is absent (SkipComponent), never filled from elsewhere",
+                       construct="%s / %s" % (short(rs[0], 40) if rs else "(no raise)", short(rets[0], 40) if rets else "(no return)"))
+            return
         cx.bad(fn, "RegistryPoint.__call__ scans its implementations", construct="(no loop)")
         return
     lp = loops[0]
@@ -69,6 +91,10 @@ def r2_registration_order(cx):
     kv = [U(e) for e in loop.target.elts] if loop is not None and isinstance(loop.target, ast.Tuple) else ["k", "v"]
     point = trace(a.args[0], rr)
     ok = ("is_datasource(%s)" % kv[1], True) in g and ("%s in base.registry" % kv[0], True) in g and U(a.args[1]) == kv[1] and U(point) == "base.registry[%s]" % kv[0]
+    if not ok and U(point) in ("base.registry.get(%s)" % kv[0], "base.registry.get(%s, None)" % kv[0]) and isinstance(a.args[0], ast.Name):
+        # single look-up form: point = base.registry.get(k); if point is not None: ...   (registry values are RegistryPoint objects)
+        pn = a.args[0].id
+        ok = ("is_datasource(%s)" % kv[1], True) in g and U(a.args[1]) == kv[1] and ((("%s is None" % pn), False) in g or (("%s is not None" % pn), True) in g or (pn, True) in g)
     cx.require(ok, a, "a datasource named like a registry point of the base class becomes a dependency of exactly that point")
     rch = find_calls(rr.body, attr="_register_context_handler")
     ok = len(rch) == 1 and syn_dominates(stmt_of(a), rch[0]) and U(rch[0].args[1]) == kv[1] and guard_texts(rch[0]) == g
